@@ -66,6 +66,19 @@ Fixpoint index_completeb (es : list entry) (l : list sbatch) : bool :=
   | SBlock _ :: r => index_completeb es r
   end.
 
+(* index_wf for the scanned index *)
+Definition index_wfb (log : list sbatch) (es : list entry) : bool :=
+  forallb (fun e => let '(p, f, m) := e in
+    (f <? m) &&
+    existsb (fun s => match s with SBatch b => (rb_first b =? f) && negb (rb_control b) && rb_txn b && (rb_pid b =? p) | _ => false end) log &&
+    existsb (fun s => match s with SBatch b => (rb_first b =? m) && (rb_pid b =? p) &&
+                                              match marker_of b with Some 0 => true | _ => false end | _ => false end) log &&
+    forallb (fun s => match s with
+                      | SBatch b => match marker_of b with
+                                    | Some _ => negb ((rb_pid b =? p) && (f <=? rb_first b) && (rb_first b <? m))
+                                    | None => true end
+                      | _ => true end) log) es.
+
 (* index_for *)
 Definition index_forb (es : list entry) (o top : Z) (idx : list (Z * Z)) : bool :=
   forallb (fun pf => existsb (fun e => let '(p, f, m) := e in (p =? fst pf) && (f =? snd pf) && (o <=? m)) es) idx &&
@@ -124,7 +137,7 @@ Definition ok_parse (a : pcase) : bool :=
   let log := pc_log a in
   let es := aborted_txns [] log in
   let '(okr, s2, out) := run_steps (pc_cfg a) log es (pc_start a) (pc_steps a) in
-  wf_logb log && index_completeb es log && okr &&
+  wf_logb log && index_wfb log es && index_completeb es log && okr &&
   (* the theorem's conclusion on this run *)
   (negb (pc_exact a) ||
    eqb_of (list_eq_dec cmsg_eq_dec) out
